@@ -18,7 +18,7 @@ import (
 
 func init() {
 	seqChecks["c13"] = &seqCheck{run: runC13, replay: replayC13,
-		rule: "every mutation history of <=3 operations (thorough: 4, the 4th over the reduced value set {nil, ka, (k,k), empty} without two-mutation transactions) {Create, Update, Delete, two updates in one transaction, update+delete in one transaction} x ids {a,b,c} x values with key vectors {nil,empty,k,ka,l, a key containing the separator byte NUL} x {nil,k} (two indexes), each on a fresh badgerstore + QueryStore under the scheduler; after Flush 16 basic queries per history and the full set (2 indexes x 7 prefixes x 3 filters x 4 offsets x 4 limits x 2 directions = 1344) on every distinct content of depth<=2 are compared with a sorted/filtered/windowed scan of the model map; OnQueryChange count, the query result inside the callback and Events() are checked for every mutation (C14); distinct = distinct (history, result vector)"}
+		rule: "every mutation history of <=3 operations (thorough: 4, the 4th over the reduced value set {nil, (k,k)} without two-mutation transactions) {Create, Update, Delete, two updates in one transaction, update+delete in one transaction} x ids {a,b,c} x values with key vectors {nil,empty,k,ka,l, a key containing the separator byte NUL} x {nil,k} (two indexes), each on a fresh badgerstore + QueryStore under the scheduler; after Flush 16 basic queries per history and the full set (2 indexes x 7 prefixes x 3 filters x 4 offsets x 4 limits x 2 directions = 1344) on every distinct content of depth<=2 are compared with a sorted/filtered/windowed scan of the model map; OnQueryChange count, the query result inside the callback and Events() are checked for every mutation (C14); distinct = distinct (history, result vector)"}
 }
 
 type c13Val struct{ k1, k2 string } // "" = nil key
@@ -449,12 +449,12 @@ func runC13(c *seqCtx) {
 			if id == "c" && !usedID(ops, "b") {
 				continue
 			}
-			// the 4th operation of the thorough tier ranges over a reduced value set {nil, ka, (k,k), ""} and
+			// the 4th operation of the thorough tier ranges over a reduced value set {nil, (k,k)} and
 			// has no two-mutation transactions: depth 4 over the full alphabet is 25 times larger than depth 3
 			vals := c13AllVals
 			multi := []int{1, 2, 5, 8}
 			if len(ops) == 3 {
-				vals = []int{0, 2, 5, 8}
+				vals = []int{0, 5}
 				multi = nil
 			}
 			if !usedKind(ops, "init") && len(ops) < 3 {
